@@ -16,6 +16,8 @@ def check(run):
     quick = run.tier == "quick"
     run.regenerate()
     run.lean_props(common.modules_for("C06"))
+    from .. import glue_modes
+    glue_modes.corr(run, quick)   # Lean model of Modes (constructor, layout, dispatch, conj pairing, product terms, copies) vs the real class
     rng = run.rng
     Rs = [helpers.random_rotor(rng) for _ in range(3)] + [(1.0, 0.0, 0.0, 0.0), (0.0, 0.6, 0.8, 0.0)]
     combos = [(0, 0, 0, 0), (0, 2, 1, 3), (-1, 2, 2, 2), (2, 3, -2, 4), (1, 1, -3, 3), (-2, 5, 0, 0)] if quick else \
@@ -62,6 +64,23 @@ def check(run):
                     run.violation("spellings-disagree", name, inp, "same weights as f*g", "differs")
             if full is None:
                 continue
+            # function form with inputs stored from their own (different) ell_min, as its docstring permits
+            for (ef, eg) in [(abs(sf), abs(sg)), (min(abs(sf), Lf), 0), (0, min(abs(sg), Lg)), (min(1, Lf), min(2, Lg))]:
+                if ef > Lf or eg > Lg or (ef, eg) == (0, 0):
+                    continue
+                fa, ga = f.ndarray[..., ef ** 2:].copy(), g.ndarray[..., eg ** 2:].copy()
+                zf, zg = f.ndarray.copy(), g.ndarray.copy()
+                zf[..., :ef ** 2] = 0
+                zg[..., :eg ** 2] = 0
+                try:
+                    arr, emin, emax, s3 = spherical.multiply(fa, ef, Lf, sf, ga, eg, Lg, sg)
+                    ref, _, _, _ = spherical.multiply(zf, 0, Lf, sf, zg, 0, Lg, sg)
+                except Exception as e:
+                    run.violation("multiply-raised", "spherical.multiply[ell_min]", {**inp, "ellmin_f": ef, "ellmin_g": eg}, "product", repr(e))
+                    continue
+                run.gap_case("function-form-ell_min", (sf, Lf, sg, Lg, la, lb, ef, eg), f"ellmin_f={'=' if ef == eg else '!='}ellmin_g")
+                if (emin, emax, s3) != (0, Lf + Lg, sf + sg) or arr.shape != ref.shape or not np.allclose(arr, ref, rtol=1e-12, atol=1e-12 * max(float(np.max(np.abs(ref))), 1e-300)):
+                    run.violation("function-form-depends-on-ell_min", "spherical.multiply[ell_min]", {**inp, "ellmin_f": ef, "ellmin_g": eg}, "same weights as with zero-padded inputs from ell=0", "differs")
             # truncators: result = full product cut at the requested ell_max
             for tname, trunc, Lt in (("max", max, max(Lf, Lg)), ("min", min, min(Lf, Lg)), ("const", (lambda t: 3), 3), ("sum", sum, Lf + Lg)):
                 if Lt < abs(sf + sg) and False:
